@@ -17,6 +17,7 @@ LEVEL_TEXT = (
     "under every order and every split over two files; the install decision equals the specified table over "
     "installed x recorded x wanted versions (nothing installed without allow_all_imports, foreign packages untouched, "
     "pyscript's record equal to what it installed)"
+    " (ten line kinds incl. versions whose lexicographic and numeric order disagree); the stored record is written through async_update_entry whenever it changes (never edited in place) and survives a yaml re-import; on reload the configuration is refreshed before the installer's gate is consulted"
 )
 LEVEL_NOTE = "packaging.version.Version of the host is the ordering oracle; file system, Home Assistant's installer and importlib.metadata are summarised; package names and more than two files are not modelled"
 TECHNIQUE = "abstract interpretation of process_all_requirements / install_requirements on exhaustive finite models (decision tables, permutation invariance)"
